@@ -80,13 +80,16 @@ class Variant:
                   "-fno-omit-frame-pointer"]
         return f
 
-V_DEFAULT = Variant()
-V_ABACUS = Variant(abacus=True)
+V_DEFAULT = Variant(extra=("-funsigned-char",))      # plain char unsigned as on ARM/PowerPC Linux; the clang c++20, size, sanitizer and abacus legs keep it signed
+V_ABACUS = Variant(abacus=True, opt="-Os")      # abacus algorithm at run time, size-optimised
 V_CLANG20 = Variant(cxx="clang++-14", std="c++20")
 # a release-like configuration: newest standard, highest level, assertions off, plain char unsigned
 V_REL = Variant(cxx="clang++-14", std="c++2b", opt="-O3", extra=("-DNDEBUG", "-funsigned-char"), label="rel")
-V_SAN = Variant(opt="-O1", san=True)
+# size-optimised build in the GNU dialect of C++20: __OPTIMIZE_SIZE__, no __STRICT_ANSI__, g++'s C++20 run-time paths
+V_SIZE = Variant(cxx="g++", std="gnu++20", opt="-Os", label="size")
+V_SAN = Variant(opt="-Os", san=True)         # -Os defines __OPTIMIZE__ and __OPTIMIZE_SIZE__; thorough adds -O1 sanitizer builds
 V_SAN_ABACUS = Variant(opt="-O1", san=True, abacus=True)
+V_SAN_O1 = Variant(opt="-O1", san=True)
 
 def cache_dir():
     d = os.path.join(CACHE, repo_hash())
